@@ -11,6 +11,8 @@ import (
 	"reflect"
 	"strings"
 	"time"
+	"unicode"
+	"unicode/utf8"
 
 	"github.com/vimeo/dials"
 	"github.com/vimeo/dials/ptrify"
@@ -615,6 +617,27 @@ func checkC01(c *Ctx) {
 		// regenerated tie for the type translation
 		if rep := c.Drv.Ask("ov ptrify " + tDesc); rep != "ok "+tt.tyDesc(PT) {
 			res.Add(Finding{Kind: "disagreement", What: "Pointerify: model != implementation", Case: cs, Observed: tt.tyDesc(PT), Model: rep})
+		}
+		// oracle (independent of the model): the pointerified type has one field, in order and under the same name, for
+		// every exported field that is not tagged `dials:"-"` and is not a channel or function - exported meaning "the first LETTER is upper case"
+		if PT != nil && PT.Kind() == reflect.Struct {
+			var wantNames, gotNames []string
+			for k := 0; k < T.NumField(); k++ {
+				f := T.Field(k)
+				first, _ := utf8.DecodeRuneInString(f.Name)
+				if k := f.Type.Kind(); k == reflect.Chan || k == reflect.Func {
+					continue // channels and functions are not configuration
+				}
+				if unicode.IsUpper(first) && f.Tag.Get("dials") != "-" {
+					wantNames = append(wantNames, f.Name)
+				}
+			}
+			for k := 0; k < PT.NumField(); k++ {
+				gotNames = append(gotNames, PT.Field(k).Name)
+			}
+			if !reflect.DeepEqual(wantNames, gotNames) && (len(wantNames)+len(gotNames) > 0) {
+				res.Add(Finding{Kind: "violation", What: "Pointerify dropped or added a field: a leaf no source can set always keeps its default, whatever the layers say", Case: cs, Expected: wantNames, Observed: gotNames})
+			}
 			// no `continue`: the leaf-wise oracle below does not depend on the model
 		}
 		nl := r.Intn(6)
